@@ -184,7 +184,7 @@ fn main() {
             let mut inj = 0;
             for i in start..start + runs {
                 progress(&progress_path, &format!("{}", i));
-                inj += hc_twin::run_twin(&mut tr, i, mix(seed ^ 0x7717, i));
+                inj += hc_twin::run_twin(&mut tr, i, mix(seed ^ 0x7717, i), m.contains_key("noinject"));
             }
             progress(&progress_path, "done");
             eprintln!("hc-twin: runs={} injected={} lines={}", runs, inj, tr.lines);
